@@ -25,6 +25,15 @@ namespace Banyan.C18
 
 abbrev Tags := List (String × String)
 
+/-- every search the model abstracts (`Apply`'s and `Query`'s default limit, `shard.repair`, `queryProperty`) is
+    limited to this many documents; the model assumes fewer stored revisions per key (tied in Tie/C18.lean). -/
+def searchLimit : Nat := 100
+
+/-- shape facts of the code the model mirrors (tied to the source text in Tie/C18.lean). -/
+def repairKeepsLaterTombstone : Bool := true     -- `…deleteTime >= deleteTime` in `shard.repair` (fix F18a)
+def repairSkipsReplacedDoc : Bool := true        -- `buildNotDeletedDocIDList` skips the id being replaced (fix F18a)
+def liaisonUsesNewerThan : Bool := true          -- `newerThan` in `findPrevAndOlderProperties` and both de-dups (fix F18a)
+
 /-- One bluge document = one revision of one property. `key` stands for `group/name/id` (group and name are
     fixed in the driver), the document id is `(key, rev)` (`GetPropertyID`), `del = 0` means not deleted. -/
 structure Doc where
